@@ -38,12 +38,12 @@ func NewSolicitMountedStreamWithErr(err error) SolicitMountedStream {
 
 // AcceptMountedStream claims ownership of the stream.
 func (s *solicitMountedStream) AcceptMountedStream() (link.MountedStream, bool, error) {
+	s.mu.Lock()
+	defer s.mu.Unlock()
+
 	if s.err != nil {
 		return nil, false, s.err
 	}
-
-	s.mu.Lock()
-	defer s.mu.Unlock()
 
 	if s.accepted {
 		return nil, true, nil
